@@ -376,7 +376,9 @@ func decodeSCTPData(data []byte, p gopacket.PacketBuilder) error {
 		Payload:         []byte{},
 	}
 	if l >= 16 {
-		sc.Payload = data[16:l]
+		// the user data ends at the chunk length; the chunk padding up to
+		// the next multiple of 4 is not part of it
+		sc.Payload = data[16:chunk.Length]
 	}
 	// Length is the length in bytes of the data, INCLUDING the 16-byte header.
 	p.AddLayer(sc)
